@@ -437,6 +437,58 @@ def layer_attrs_builtin(ctx, n):
                           {'src': src, 'cfg': {}})
 
 
+def layer_fallback_of_namespace_elements(ctx, n):
+    """An element of a template namespace has no tag in the output - not when it renders normally, and not when its
+    tal:on-error fallback is rendered in its place."""
+    rng = ctx.rng
+    for case in range(n):
+        ns = rng.choice(['tal', 'metal', 'tal', 'i18n'])
+        pre = rng.choice([ns, ALT[ns], 'default'])
+        fails = rng.random() < .7
+        body = 'b ${1/0} c' if fails else 'b ${x} c'
+        onerr = rng.choice(["string:E", "'E'", "structure string:<i>E</i>"])
+        if pre == 'default':
+            el = '<block xmlns="%s" on-error="%s">%s</block>' % (NS[ns], onerr, body) if ns == 'tal' else None
+        else:
+            t = pre if pre != ns or ns == 'tal' else ns
+            talp = pre if ns == 'tal' else 'tal'
+            el = '<%s:block %s:on-error="%s">%s</%s:block>' % (pre, talp, onerr, body, pre)
+        if el is None:
+            continue
+        decl = '' if pre in (ns, 'default') else ' xmlns:%s="%s"' % (pre, NS[ns])
+        src = '<root%s>[%s]</root>' % (decl, el)
+        want = '<root>[%s]</root>' % (('<i>E</i>' if 'structure' in onerr else 'E') if fails else 'b X&lt; c')
+        got = render(src)
+        ctx.mon('namespace-element-fallbacks-compared')
+        ctx.case(key=('ns-fallback', ns, pre, fails, onerr), nontrivial=True)
+        if got != want:
+            ctx.violation('namespace-element-tag-in-the-fallback', 'template %r\n  rendered %r\n  expected %r' % (src, got, want), {'src': src, 'cfg': {}})
+
+
+def layer_data_prefix_scope(ctx, n):
+    """data-<prefix>-<name> is a statement exactly where <prefix> is bound to a template namespace; outside that element
+    the same attribute text is an ordinary data attribute (option enable_data_attributes)."""
+    rng = ctx.rng
+    for case in range(n):
+        pre = rng.choice(['t', 'x', 'my'])
+        parts, wants = [], []
+        for i in range(rng.randint(2, 4)):
+            if rng.random() < .5:
+                parts.append('<a data-%s-id="%d" data-%s-content="kept">o%d</a>' % (pre, i, pre, i))
+                wants.append('<a data-%s-id="%d" data-%s-content="kept">o%d</a>' % (pre, i, pre, i))
+            else:
+                parts.append('<div xmlns:%s="%s"><b data-%s-content="x" data-other-id="%d">old</b></div>' % (pre, NS['tal'], pre, i))
+                wants.append('<div><b data-other-id="%d">X&lt;</b></div>' % i)
+        src = '<root>' + ''.join(parts) + '</root>'
+        want = '<root>' + ''.join(wants) + '</root>'
+        got = render(src, enable_data_attributes=True)
+        ctx.mon('data-prefix-scopes-compared')
+        ctx.case(key=('data-scope', pre, tuple(p[:2] for p in parts)), nontrivial=True)
+        if got != want:
+            ctx.violation('data-attribute-read-under-the-binding-of-another-element', 'template %r\n  rendered %r\n  expected %r' % (src, got, want),
+                          {'src': src, 'cfg': {'enable_data_attributes': True}})
+
+
 def layer_load_chain_options(ctx, n):
     """Pages (file templates) of one directory that pull in a shared template through load:, created with and
     without enable_data_attributes, in every order and all kept alive: each page's own option decides how the shared
@@ -487,6 +539,8 @@ def run(ctx):
     layer_same_tag_text_under_two_bindings(ctx, 30 if ctx.quick else 400)
     layer_case_variant_names(ctx, 30 if ctx.quick else 400)
     layer_attrs_builtin(ctx, 30 if ctx.quick else 400)
+    layer_data_prefix_scope(ctx, 25 if ctx.quick else 300)
+    layer_fallback_of_namespace_elements(ctx, 25 if ctx.quick else 300)
     rng = ctx.rng
     n = 250 if ctx.quick else 4000
     for case in range(n):
